@@ -89,6 +89,10 @@ def assign_edge_ids(trees, n_fs: int, mode: str = "subsystem-compact") -> list[d
     id is still free in the tree at hand, different subsystems of different trees may share an id.
     `subsystem-global`: one id per subsystem over the whole reaction.
     `per-topology`: ids n_fs, n_fs+1, ... in traversal order of each tree (a shared subsystem may get different ids)."""
+    if mode == "subsystem-global" and n_fs + len({s for t in trees for s in subsystems(t)}) > 8:
+        # edge ids stay below 8: `intermediate_edge_ids` is a frozenset, and only for such ids is its iteration order (which
+        # breaks the ties of ampform's natural sorting of "023" vs "23") simply ascending, as the Lean model assumes
+        mode = "subsystem-compact"
     out = []
     known: dict[tuple, int] = {}
     for tree in trees:
@@ -224,15 +228,31 @@ def build_multi(trees, initial, finals, resonances, canonical: bool, outer=None,
         else:
             step = max(1.0, len(candidates) / max_outer)
             outer = [candidates[int(k * step)] for k in range(min(max_outer, len(candidates)))]
+    # like qrules: closed under the exchange of identical final-state particles (all permutations of their helicities)
+    groups: dict[str, list[int]] = {}
+    for i, f in enumerate(finals):
+        groups.setdefault(f[0], []).append(i)
+    closed = list(dict.fromkeys(tuple(o) for o in outer))
+    for ids in groups.values():
+        if len(ids) > 1:
+            for o in list(closed):
+                for perm in itertools.permutations(ids):
+                    q = list(o)
+                    for a, b in zip(ids, perm):
+                        q[1 + a] = o[1 + b]
+                    if tuple(q) not in closed:
+                        closed.append(tuple(q))
+    outer = closed
     transitions = []
     for pt in per_tree:
-        chains = [h for o in outer for h in chains_for(pt, o)]
+        per_outer = [chains_for(pt, o) for o in outer]
         ls_products = list(itertools.product(*[pt["info"][n]["ls"] for n in sorted(pt["info"])])) if canonical \
             else [tuple((None, None) for _ in pt["info"])]
         budget = max(1, max_per_topology // len(ls_products))
-        if len(chains) > budget:
-            step = len(chains) / budget
-            chains = [chains[int(k * step)] for k in range(budget)]
+        if sum(len(c) for c in per_outer) > budget:  # thin evenly, but keep at least one chain per outer tuple
+            share = max(1, budget // max(1, sum(1 for c in per_outer if c)))
+            per_outer = [[c[int(k * len(c) / min(share, len(c)))] for k in range(min(share, len(c)))] for c in per_outer]
+        chains = [h for c in per_outer for h in c]
         for h in chains:
             states = {e: State(pt["part"][e], h[e] / 2) for e in pt["topo"].edges}
             for lsp in ls_products:
@@ -241,7 +261,8 @@ def build_multi(trees, initial, finals, resonances, canonical: bool, outer=None,
                 transitions.append(FrozenTransition(pt["topo"], states, inter))
     if not transitions or (canonical and any(i.l_magnitude is None for t in transitions for i in t.interactions.values())):
         return None
-    return ReactionInfo(transitions, formalism="canonical-helicity" if canonical else "helicity")
+    reaction = ReactionInfo(transitions, formalism="canonical-helicity" if canonical else "helicity")
+    return reaction if exchange_closed(reaction) else None
 
 
 # ----------------------------------------------------------------------------- the class, measured
@@ -313,6 +334,26 @@ def shared_subdecays(reaction) -> dict:
     }
 
 
+def exchange_closed(reaction) -> bool:
+    """Is the transition list closed under the exchange of identical final-state particles, as far as the intensity can
+    tell: does every identical-particle graph of every transition carry outer projections inside the per-state pools of
+    the reaction (`collect_spin_projections` over the TRANSITIONS)?  Every qrules reaction is (it contains all helicity
+    combinations); a thinned or hand-made list need not be, and then the amplitude symbol of such a graph is defined but
+    not summed by the outer PoolSum (while the I_ component contains it): the statement "incoherent sum over the outer
+    projections" is ambiguous there, so such reactions are kept out of the numeric verdict (recorded as observations)."""
+    from tools.corr import C02_oracle as O
+
+    pools: dict[int, set] = {}
+    for t in reaction.transitions:
+        for e in [*t.topology.incoming_edge_ids, *t.topology.outgoing_edge_ids]:
+            pools.setdefault(e, set()).add(O.d2(t.states[e].spin_projection))
+    for t in reaction.transitions:
+        for _, states, _ in O.symmetrise(t):
+            if any(O.d2(states[e].spin_projection) not in pools[e] for e in pools):
+                return False
+    return True
+
+
 # ----------------------------------------------------------------------------- deterministic members of the class
 
 
@@ -351,6 +392,12 @@ def shaped_multi_reactions(big: bool = False) -> dict:
     out["multi_4body_per_topology_ids.can"] = build_multi(
         [(1, (0, (2, 3))), ((2, 3), (0, 1))], j1, [pip, pim, pi0, gam], res4, canonical=True, outer=[(0, 0, 0, 0, -2)],
         max_per_topology=8, id_mode="per-topology", node_perms=[[2, 1], [2, 1]])
+    # 5. a tie of ampform's natural sorting: the subsystems (23) and (023) of one topology name the amplitude base
+    #    "A^23,023" or "A^023,23" according to the iteration order of the frozenset of their edge ids (4 = (23), 6 = (023)
+    #    here, listed 6 first in the topology's edge mapping)
+    out["multi_4body_sorting_tie.hel"] = build_multi(
+        [((2, 3), (0, 1)), (1, (0, (2, 3)))], j1, [pip, pim, pi0, gam], res4, canonical=False, outer=[(2, 0, 0, 0, -2)],
+        max_per_topology=3, id_mode="subsystem-global")
     return {k: v for k, v in out.items() if v is not None}
 
 
